@@ -112,11 +112,15 @@ def run(ctx):
         r = np.random.default_rng(seed)
         cls = str(r.choice(['lp', 'milp', 'milp', 'soc']))
         atoms = ['abs', 'norm1', 'norminf'] + (['norm2', 'sumsqr', 'square'] if cls == 'soc' else [])
-        d = DM.gen(r, atoms=atoms, integer=(cls == 'milp'), front='ro'); d['seed'] = seed; d.pop('pw', None)
+        front = 'ro' if r.random() < 0.5 else ('socp' if cls == 'soc' else 'lp')       # ro front end or the stand-alone layer
+        d = DM.gen(r, atoms=atoms, integer=(cls == 'milp'), front=front); d['seed'] = seed; d.pop('pw', None)
+        if d['obj']['kind'] == 'pw' and front != 'ro':
+            continue
         if cls == 'milp' and not ('B' in d['vtype'] and 'I' in d['vtype']) and d['n'] >= 2:
             d['vtype'] = ('BI' + d['vtype'])[:d['n']]            # binaries and integers in one model
             d['x0'] = [float(min(max(round(v), 0), 1)) if t == 'B' else float(round(v)) if t == 'I' else v for v, t in zip(d['x0'], d['vtype'])]
         case = {"desc": d, "class": cls}
+        ctx.count('front:' + front)
         try:
             with C.quiet():
                 m, x = DM.build(d)
